@@ -444,7 +444,7 @@ Definition m_subbuild (fname : string) (args kwargs : pyval) (fn : pyval -> pyva
 Definition m_query (q : query) : world -> world * (outcome * option op) :=
   fun w0 =>
     match exec_query q None w0 with
-    | (w1, inl v) => (set_log (LAnswer q (inl v) :: w_log w1) w1, (inl v, Some (OSimple q v None)))
-    | (w1, inr (XOS c)) => (set_log (LAnswer q (inr c) :: w_log w1) w1, (inr (XOS c), Some (OSimple q PNone (Some c))))
+    | (w1, inl v) => (w1, (inl v, Some (OSimple q v None)))
+    | (w1, inr (XOS c)) => (w1, (inr (XOS c), Some (OSimple q PNone (Some c))))
     | (w1, inr e) => (w1, (inr e, Some (OSimple q PNone None)))
     end.
